@@ -113,7 +113,11 @@ SCALARS = [
     ("Pattern", re.Pattern, [re.compile("a+b"), re.compile(r"\d{2}")]),
     ("date", datetime.date, [datetime.date(2020, 2, 29), datetime.date(1, 1, 1), datetime.date(9999, 12, 31)]),
     ("datetime", datetime.datetime, [datetime.datetime(2020, 1, 2, 3, 4, 5, 6, tzinfo=UTC),
-                                     datetime.datetime(1999, 12, 31, 23, 59, 59, tzinfo=TZ5)]),
+                                     datetime.datetime(1999, 12, 31, 23, 59, 59, tzinfo=TZ5),
+                                     # negative offsets that are not whole hours (Newfoundland, Marquesas, a quarter hour west)
+                                     datetime.datetime(2021, 6, 1, 12, 0, 0, tzinfo=datetime.timezone(datetime.timedelta(hours=-3, minutes=-30))),
+                                     datetime.datetime(2021, 6, 1, 12, 0, 0, 250000, tzinfo=datetime.timezone(datetime.timedelta(hours=-9, minutes=-30))),
+                                     datetime.datetime(2021, 6, 1, 0, 5, 0, tzinfo=datetime.timezone(datetime.timedelta(minutes=-15)))]),
     ("time", datetime.time, [datetime.time(1, 2, 3, tzinfo=UTC), datetime.time(23, 59, 59, 999999, tzinfo=UTC)]),
     ("timedelta", datetime.timedelta, [datetime.timedelta(hours=1), datetime.timedelta(days=3, seconds=5, microseconds=7)]),
     ("NoneType", type(None), [None]),
